@@ -76,7 +76,7 @@ def list_orders(ck, tier):
         c04.run(ck, 1500 if tier == "thorough" else 60, 0.0)
     finally:
         solvecheck.OPTS.update(saved)
-    own = ("list-constraint-violated", "list-access-paths", "edit-does-not", "fixed-size-list")
+    own = ("list-constraint-violated", "list-access-paths", "edit-does-not", "fixed-size-list", "F70:", "list-size-exceeds")
     ck.oracle_failures[n0:] = [f for f in ck.oracle_failures[n0:] if not f["signature"].startswith(own)]
 
 
